@@ -130,6 +130,25 @@ def search(ctx):
             if why and (modname, cls) not in seen:
                 seen.add((modname, cls))
                 fails.append({'module': modname, 'cell': [float(x) for x in cell], 'class': cls, 'what': why, 'replay': '%s.reduce_cell(%r): %s' % (modname, [float(x) for x in cell], why)})
+    # grid of special lengths and angles (30, 45, 60, 90, 120, 135, 150 degrees; small integer lengths): coincidences between lattice vectors and Cartesian directions.
+    # Volume must be preserved whatever basis is returned (also by the transposed-basis cells of finding F10).
+    lens, angs = [3.0, 4.0, 5.0, 6.0, 10.0], [30.0, 45.0, 60.0, 90.0, 120.0, 135.0, 150.0]
+    grid = [[a, b, c, al, be, ga] for a in lens for b in lens for c in lens for al in angs for be in angs for ga in angs if G.gram(al, be, ga) >= 0.02]
+    for cell in ctx.rng.sample(grid, ctx.n(700, 6000)):
+        for modname, mod in (('tools', tools), ('laue', laue)):
+            try:
+                red = np.asarray(mod.reduce_cell(cell), float)
+                ctx.count(('grid', modname, tuple(cell)), hist='search:%s:special grid' % modname)
+                V0 = mod.cell_volume(cell)
+                ok = np.all(np.isfinite(red)) and min(red[:3]) > 0 and G.gram(*red[3:]) > 0 and abs(mod.cell_volume(red) - V0) <= 1e-6 * V0
+                if not ok and (modname, 'gridvolume') not in seen:
+                    seen.add((modname, 'gridvolume'))
+                    why = 'volume changes from %.6f to %r (returned cell %r)' % (V0, (mod.cell_volume(red) if np.all(np.isfinite(red)) and G.gram(*red[3:]) > 0 else None), [round(float(x), 4) for x in red])
+                    fails.append({'module': modname, 'cell': cell, 'class': 'volume', 'what': why, 'replay': '%s.reduce_cell(%r): %s' % (modname, cell, why)})
+            except Exception as e:
+                if (modname, 'gridexc') not in seen:
+                    seen.add((modname, 'gridexc'))
+                    fails.append({'module': modname, 'cell': cell, 'class': 'exc', 'what': 'raised %s: %s' % (type(e).__name__, e), 'replay': '%s.reduce_cell(%r)' % (modname, cell)})
     # needle-shaped lattices (2*v1 must not be taken as the second vector) and obtuse triclinic results
     for cell in ([2.0, 9.0, 11.0, 90.0, 90.0, 90.0], [2.5, 8.0, 8.5, 90.0, 90.0, 90.0], [3.0, 7.5, 16.0, 90.0, 90.0, 90.0]):
         for modname, mod in (('tools', tools), ('laue', laue)):
